@@ -45,6 +45,7 @@ void vh_unpoison_input(vh_ctx_t * v) { ASAN_UNPOISON_MEMORY_REGION(v->inbuf, v->
 /* ---- capture interface ----------------------------------------------------------- */
 void (*vh_on_write_cb)(scpi_t * context, const char * data, size_t len);
 void (*vh_on_error_cb)(scpi_t * context, int err);
+void (*vh_on_flush_cb)(scpi_t * context);
 static void decoy_maybe_from_write(vh_ctx_t * v);
 /* the array handed to SCPI_Input is the application's: firmware with ONE line buffer re-uses it as soon as the library calls back (to collect the
  * response, to log the error). The library has copied what it needs before it calls anything. When enabled, the first callback inside an input
@@ -70,6 +71,7 @@ static scpi_result_t cb_flush(scpi_t * context) {
     v->nflush++;
     v->write_after_flush = 0;
     if (v->log_enabled) vh_buf_printf(&v->log, "F @%zu\n", v->out.len);
+    if (vh_on_flush_cb) vh_on_flush_cb(context);
     return SCPI_RES_OK;
 }
 static int cb_error(scpi_t * context, int_fast16_t err) {
